@@ -79,12 +79,14 @@ VNPaths(e) ==
       P == [k \in DOMAIN e.paths |-> [i \in DOMAIN e.paths[k] |-> V3(e.paths[k][i])]]
       cost(k) == WalkCost("sum", E, P[k], 1)
   IN IF e.raised THEN (IF MinCost(E, mv, "sum", s, t) = Inf THEN "ok" ELSE "no-path-reported-but-one-exists")
-     ELSE IF Len(P) = 0 \/ Len(P) > e.n THEN "npaths-count"
+     ELSE IF Len(P) = 0 THEN "npaths-none-returned"
      ELSE IF \E k \in DOMAIN P : Len(P[k]) = 0 \/ P[k][1] # s \/ P[k][Len(P[k])] # t \/ ~ValidWalk(E, mv, P[k]) THEN "npaths-not-a-valid-path"
-     ELSE IF cost(1) # MinCost(E, mv, "sum", s, t) THEN "npaths-first-not-optimal"
+     (* the first path is THE optimal path under the selected method's criterion (C10); the others are ranked by summed energy *)
+     ELSE IF WalkCost(e.kind0, E, P[1], 1) # MinCost(E, mv, e.kind0, s, t) THEN "npaths-first-not-optimal"
+     ELSE IF Len(P) > e.n THEN "npaths-count"
      ELSE IF \E k \in 2..Len(P) : \E j \in 1..(k - 1) : ~FarEnough(P[k], P[j], e.num, e.den) THEN "npaths-too-similar"
      ELSE IF \E k \in 2..(Len(P) - 1) : cost(k) > cost(k + 1) THEN "npaths-not-in-order-of-cost"
-     ELSE IF \E k \in 2..Len(P) : cost(k) < cost(1) THEN "npaths-cheaper-than-optimal"
+     ELSE IF e.kind0 = "sum" /\ \E k \in 2..Len(P) : cost(k) < cost(1) THEN "npaths-cheaper-than-optimal"
      ELSE "ok"
 
 Verdict(e) == CASE e.act = "Volume" -> VVolume(e)
